@@ -41,9 +41,20 @@ Definition svc_desc_eqb (fields : bool) (a b : svc_desc) : bool :=
 
 (* the request / response object of a method: present under the key the model says, with the declared
    property names in order *)
+Fixpoint fty_eqb (a b : fty) : bool :=
+  match a, b with
+  | TScalar x, TScalar y => String.eqb x y
+  | TRef x k, TRef y l => String.eqb x y && key_eqb k l
+  | TArray x, TArray y | TMap x, TMap y => fty_eqb x y
+  | _, _ => false
+  end.
+
+(* names AND types: the declared types are translated from the j5s source by the harness (declFTy), only types
+   declared in place fall back to the observed ones *)
 Definition method_schema_ok (obs : env) (ks : key * schema) : bool :=
   match lookup obs (fst ks), snd ks with
-  | Some (SObject ps), SObject qs => list_eqb str_eqb (map p_json qs) (map p_json ps)
+  | Some (SObject ps), SObject qs =>
+      list_eqb str_eqb (map p_json qs) (map p_json ps) && list_eqb fty_eqb (map p_ty qs) (map p_ty ps)
   | _, _ => false
   end.
 
@@ -56,6 +67,18 @@ Inductive c16compile := CCompile (P : decl_package) (extra awkward : bool) (im :
 Definition keys_of (g : env) : list key := map fst g.
 Definition keys_same (a b : list key) : bool :=
   forallb (fun k => mem_key k b) a && forallb (fun k => mem_key k a) b.
+
+(* a declared schema (built from the j5s declaration by the harness where its types translate) is the observed one:
+   same kind, same property names and types in order *)
+Definition props_eqb (qs ps : list prop) : bool :=
+  list_eqb str_eqb (map p_json qs) (map p_json ps) && list_eqb fty_eqb (map p_ty qs) (map p_ty ps).
+
+Definition declared_schema_ok (obs : env) (ks : key * schema) : bool :=
+  match lookup obs (fst ks), snd ks with
+  | Some (SObject ps), SObject qs | Some (SOneof ps), SOneof qs => props_eqb qs ps
+  | Some SEnum, SEnum => true
+  | _, _ => false
+  end.
 
 Definition c16_compile_check (c : c16compile) : bool :=
   match c with
@@ -70,4 +93,5 @@ Definition c16_compile_check (c : c16compile) : bool :=
                  (im_services ci)
       && (extra || Nat.eqb (length (im_services ci)) (length (im_services im)))
       && forallb (method_schema_ok (im_schemas im)) (flat_map (method_schemas (dp_pkg P)) (all_methods P))
+      && forallb (declared_schema_ok (im_schemas im)) (dp_schemas P)
   end.
